@@ -17,7 +17,7 @@ def main():
             d = os.path.join(VERIF, "seeded", repo)
         tmp = tempfile.mkdtemp(prefix="gcmverif_nf_")
         shutil.copytree("/repo/gcmpy", os.path.join(tmp, "gcmpy"), ignore=shutil.ignore_patterns("__pycache__"))
-        subprocess.run(["git", "apply", "--unsafe-paths", "--directory", tmp, os.path.join(d, "patch.diff")], check=True, cwd=tmp)
+        subprocess.run(["git", "apply", "--include=*/gcmpy/*", "--unsafe-paths", "--directory", tmp, os.path.join(d, "patch.diff")], check=True, cwd=tmp)
         repo = tmp
     try:
         p = Program(repo)
